@@ -521,6 +521,9 @@ class Engine:
         args = {}
         nullable = self.nullable_params(fi)
         for name, ty in ptypes.items():
+            if fi.kind == "classmethod" and name == list(ptypes)[0] and name not in contract.params:
+                args[name] = Val(Ty("class", fi.cls), fi.cls)     # `cls`: the class the method is defined in
+                continue
             args[name] = self.fresh_val(ty, name, st, nonnull=name not in nullable)
         # arguments have (a subclass of) their annotated class; `self` by method dispatch
         for name, v in args.items():
@@ -990,6 +993,18 @@ class Engine:
                                                                z3.Store(val, to_int(idx), to_int(v))))
                 out.append(s2)
             return out
+        if isinstance(tgt, ast.Subscript) and isinstance(tgt.slice, ast.Slice):
+            out = []
+            for s2, base in self.ev(tgt.value, st):
+                if s2.status != "run":
+                    out.append(s2)
+                    continue
+                from .library import EXT_MODELS
+                m = EXT_MODELS.get((base.ty.arg, "__setslice__")) if base.ty.kind == "ext" else None
+                if m is None or tgt.slice.lower is not None or tgt.slice.upper is not None or tgt.slice.step is not None:
+                    raise OutsideSubset(f"slice assignment on {base.ty}")
+                out.extend(m(self, tgt, s2, base, v))
+            return out
         if isinstance(tgt, ast.Subscript):
             out = []
             for s2, (lst, idx) in self.ev_many([tgt.value, tgt.slice], st):
@@ -1092,6 +1107,12 @@ class Engine:
             st.heap = st.heap.put(f"$cache_has:{idx.t}", lst.t, z3.IntVal(1)) \
                 .put(f"$cache_val:{idx.t}", lst.t, to_int(v))
             return [st]
+        if lst.ty.kind == "ext":
+            from .library import EXT_MODELS
+            m = EXT_MODELS.get((lst.ty.arg, "__setitem__"))
+            if m is None:
+                raise OutsideSubset(f"no trusted contract for item assignment on a {lst.ty.arg}")
+            return m(self, node, st, lst, idx, v)
         if lst.ty.kind == "objdict":
             owner, attr = lst.t
             if v.ty.kind != "tuple" or len(v.t) != len(lst.ty.items):
@@ -1394,6 +1415,11 @@ class Engine:
             return Val(b.ty, z3.If(c, z3.IntVal(0), b.t))
         if a.ty.kind == "tuple" and b.ty.kind == "tuple" and len(a.t) == len(b.t):
             return Val(a.ty, [self.ite_val(c, x, y) for x, y in zip(a.t, b.t)])
+        if {a.ty.kind, b.ty.kind} <= {"emptydict", "any", "none"}:
+            # an opaque mapping (only ever forwarded as **kwargs)
+            at = a.t if a.ty.kind != "none" else z3.IntVal(0)
+            bt = b.t if b.ty.kind != "none" else z3.IntVal(0)
+            return Val(ANY, z3.If(c, at, bt))
         if a.ty.kind == "str" and b.ty.kind == "str":
             return a if (isinstance(a.t, str) and a.t == b.t) else Val(STR, None)
         if a.ty.kind == "bool" and b.ty.kind == "int":
@@ -1441,6 +1467,9 @@ class Engine:
             return [(st, vint(v))]
         if isinstance(v, str):
             return [(st, Val(STR, v))]
+        if isinstance(v, float) and v.is_integer() and abs(v) < 2 ** 24:
+            # 0.0, 1.0 ...: the same number as the integer (exact in float32 as well)
+            return [(st, vint(int(v)))]
         if isinstance(v, float):
             # an opaque value: may be passed on (e.g. to a library call), never computed with
             return [(st, Val(Ty("float"), None))]
